@@ -199,9 +199,9 @@ class DupGuard:
         # from that same address and port is its duplicate. Datagrams from port 5353 are answered by multicast (or carry
         # a QU question and are exempt), so for them equal bytes suffice.
         same_src = src is None or self.src is None or src[1] == wire.MDNS_PORT or _src_key(src) == self.src
-        # (a copy within 50 ms is a link-layer duplicate whatever the other sockets received in between; later ones are
+        # (a copy within 20 ms is a link-layer duplicate whatever the other sockets received in between; later ones are
         # retransmissions, which count again once a response on another socket may have undone the first)
-        fresh = not self.undone or (t_ms - 50.0) < self.t
+        fresh = not self.undone or (t_ms - 20.0) < self.t
         return self.data == data and (t_ms - 1000.0) < self.t and fresh and not self.last_qu and same_src
 
     def accept(self, data, t_ms, has_qu, src=None, is_resp=False):
